@@ -14,7 +14,7 @@ def run(ctx, prop):
         args += ["--vectors", vec]
         ctx.cov["vectors_exported"] = len(r.vec)
         ctx.cov["vectors_replayed"] = len(keep)
-        mine = ("illegal-match", "match-len", "rule-pattern-object-differs-from-the-pattern")
+        mine = ("illegal-match", "match-len", "rule-pattern-object-differs-from-the-pattern", "pattern-new-differs-from-try-new")
     else:
         r = vlib.model_check(ctx, "mc/MC_C02.tla", "mc/MC_C02_thorough.cfg" if th else "mc/MC_C02_quick.cfg",
                              workers=12, timeout=3000, heap="10g")
@@ -30,7 +30,7 @@ def run(ctx, prop):
                 raise vlib.ToolError("MC_Contextual_witness_%s: the variant is no longer rejected - the model lost its teeth" % v)
         args += ["--vectors2", vec]
         ctx.cov["vectors_exported"] = len(r.vec)
-        mine = ("cut-not-matched", "pattern-text-altered")
+        mine = ("cut-not-matched", "pattern-text-altered", "pattern-new-differs-from-try-new")
     rec = ctx.path("match-records.ndjson")
     summ = vlib.agv_ok(ctx, args + ["--out", rec])
     n, fails = vlib.validate_trace(ctx, "trace/Trace_Match.tla", "trace/Trace_Match.cfg", rec, timeout=3000)
